@@ -21,14 +21,18 @@ addresses (same address = same integer).
   from_handle <addr>             -> ok <obj>
   from_buffer <b>                -> ok <id>
   resize <b>                     -> ok | err BufferError
-  collect <x> ...                -> ok <wrappers whose destructor ran>   (err Reachable: not an allowed choice)
+  collect <x> ...                -> ok <wrappers whose destructor is called>   (err Reachable: not an allowed choice)
+  finalize <x> <member> ...      -> ok <x> | ok      the collector's tp_finalize of x, x in the unreferenced set
+  ret                            -> ok               the innermost destructor / free call returns
+Every destructor call consumes one identity (its activation record); lines between the line that
+started a call and its `ret` are operations issued from inside the callback.
   calls <x>                      -> ok <n>
 -/
 
 def errName : Err → String
   | .TypeError => "TypeError" | .ValueError => "ValueError" | .BufferError => "BufferError"
   | .Dead => "Dead" | .NoRef => "NoRef" | .AddrInUse => "AddrInUse" | .Reachable => "Reachable"
-  | .Garbage => "Garbage"
+  | .Garbage => "Garbage" | .NoFrame => "NoFrame"
 
 def showOut : Out → String
   | .ok l => String.intercalate " " ("ok" :: l.map toString)
@@ -58,6 +62,8 @@ def parseOp : List String → Option Op
   | ["from_buffer", b] => (nat? b).map .fromBuffer
   | ["resize", b] => (nat? b).map .resize
   | "collect" :: xs => (xs.mapM nat?).map .collect
+  | "finalize" :: x :: xs => do some (.finalize (← nat? x) (← xs.mapM nat?))
+  | ["ret"] => some .ret
   | _ => none
 
 def stepLine (s : State) (ws : List String) : State × String :=
